@@ -10,8 +10,8 @@ Open Scope string_scope.
 Definition tidy_block (B : list import) (R : list str) : import_set :=
   fold_left (fun S a => match by_import_as S a with [i] => without_imports S [i] | _ => S end) R (from_imports true B).
 
-Definition run_block (B : list (str * str)) (R : list str) : string :=
+Definition run_block (sep : bool) (B : list (str * str)) (R : list str) : string :=
   let b := mk_imports B in
   show_obj [("set", show_imports (imports_of (from_imports true b)));
-            ("reformat", show_imports (canonical true (from_imports true b)));
-            ("tidy", show_imports (canonical true (tidy_block b R)))].
+            ("reformat", show_imports (canonical sep (from_imports true b)));
+            ("tidy", show_imports (canonical sep (tidy_block b R)))].
